@@ -15,7 +15,7 @@ class C12(Prop):
             "subscribe-in-callback and unsubscribe-other-in-callback), unsubscribe-one 0/1/2, next, next_by add1, "
             "next_by mul2, error, complete, unsubscribe-subject, clone} creating at most 3 subscribers, both "
             "BehaviorSubject<_, Subject> and BehaviorSubject<_, SubjectThreads>; plus random histories of length "
-            "6..24 with random clone routing and peeks. Non-trivial = at least one delivery.")
+            "6..24 with random clone routing and peeks; family greetpeek (both flavours): the same histories with every greeted subscriber reading the value back from inside its greeting. Non-trivial = at least one delivery.")
     assumptions = [
         "single thread; no re-entrant emission from a callback",
         "items are small integers; next_by closures from the named family (add/mul/const/neg)",
@@ -51,6 +51,19 @@ class C12(Prop):
             for _ in range(n // 4):
                 ops = sg.rand_history(rng, rng.randint(40, 90), behavior=True, maxsub=12)
                 out.append(sg.mk_case("behavior", fl, ops, "wide", init=rng.randint(-3, 50), rng=rng))
+        # family greetpeek: every greeted subscriber reads the current value back through a clone from inside its
+        # greeting callback (a pure read, no model event); it must not panic or block and must answer the greeted value.
+        # (This family found the greeting-under-the-value-cell defect of the thread-safe flavour, DESIGN II.3.)
+        for fl in sg.BEHAVIOR_FLAVORS:
+            for ops in sg.enum_histories(sg.BEHAVIOR_ALPHA, L - 1):
+                c = sg.mk_case("behavior", fl, ops, "greetpeek", init=42)
+                c.fields.append(("greetpeek", []))
+                out.append(c)
+            for _ in range(n // 4):
+                ops = sg.rand_history(rng, rng.randint(6, 24), behavior=True)
+                c = sg.mk_case("behavior", fl, ops, "greetpeek", init=rng.randint(-3, 50), rng=rng)
+                c.fields.append(("greetpeek", []))
+                out.append(c)
         # the two-producer interleaving store1, store2, broadcast2, broadcast1 of C12_race_counterexample,
         # replayed on the real BehaviorSubject<_, SubjectThreads> through hook H2
         from ..case import Case
